@@ -114,6 +114,13 @@ struct VT {
   uint64_t w_seq;
   int alloc_tag;
   int64_t prio;
+  // TSO store buffer (oldest first)
+  struct SBEnt {
+    uintptr_t addr;
+    uint64_t val;
+    int size, mo;
+  } sb[16];
+  int nsb;
   // observer
   uint64_t obs_cap, obs_cnt;
   const char *obs_cls;
@@ -765,9 +772,70 @@ static void switch_from(VT *me, int next)
   if (me->state != kFinished) park(me->go);
 }
 
+// ---- TSO store buffers -----------------------------------------------------------------------------
+static void post_atomic(VT *me, int kind, uintptr_t addr, int size, uint64_t oldv, uint64_t newv, int mo, bool wrote);
+
+static void sb_flush_one(VT *v)
+{
+  if (v->nsb == 0) return;
+  const VT::SBEnt e = v->sb[0];
+  memmove(&v->sb[0], &v->sb[1], sizeof(VT::SBEnt) * static_cast<size_t>(v->nsb - 1));
+  v->nsb--;
+  if (in_arena(e.addr)) {
+    Block *b = find_block(e.addr);
+    if (b && b->freed) return;  // the owner freed the object in the meantime: the write evaporates with it
+  }
+  uint64_t old = 0;
+  switch (e.size) {
+    case 1: old = *reinterpret_cast<volatile uint8_t *>(e.addr); *reinterpret_cast<volatile uint8_t *>(e.addr) = static_cast<uint8_t>(e.val); break;
+    case 2: old = *reinterpret_cast<volatile uint16_t *>(e.addr); *reinterpret_cast<volatile uint16_t *>(e.addr) = static_cast<uint16_t>(e.val); break;
+    case 4: old = *reinterpret_cast<volatile uint32_t *>(e.addr); *reinterpret_cast<volatile uint32_t *>(e.addr) = static_cast<uint32_t>(e.val); break;
+    default: old = *reinterpret_cast<volatile uint64_t *>(e.addr); *reinterpret_cast<volatile uint64_t *>(e.addr) = e.val; break;
+  }
+  post_atomic(v, OP_STORE, e.addr, e.size, old, e.val, e.mo, true);
+}
+static void sb_flush_all(VT *v)
+{
+  while (v->nsb > 0) sb_flush_one(v);
+}
+[[maybe_unused]] static void sb_flush_everybody()
+{
+  for (int i = 0; i < G.nvt; ++i) sb_flush_all(&G.vts[i]);
+}
+static bool sb_lookup(VT *v, uintptr_t addr, int size, uint64_t *val)
+{
+  for (int i = v->nsb - 1; i >= 0; --i)
+    if (v->sb[i].addr == addr && v->sb[i].size == size) {
+      *val = v->sb[i].val;
+      return true;
+    }
+  return false;
+}
+
 // the running vthread announces its pending operation; returns when it is chosen to perform it
 static void sched_point(VT *me, int kind, uintptr_t addr)
 {
+  if (G.cfg.tso) {
+    // a thread that is about to block drains its buffer (stores become visible eventually); otherwise the memory system may
+    // drain the oldest entry of some buffer at any time (a recorded decision: 0x80 | vthread)
+    if (me->state != kRunnable) sb_flush_all(me);
+    if (G.cfg.replay_choices) {
+      while (G.nchoices < G.cfg.replay_len && (G.cfg.replay_choices[G.nchoices] & 0x80)) {
+        const int v = G.cfg.replay_choices[G.nchoices] & 0x7f;
+        record_choice(0x80 | v);
+        if (v < G.nvt) sb_flush_one(&G.vts[v]);
+      }
+    } else {
+      int have[kMaxVT], n = 0;
+      for (int i = 0; i < G.nvt; ++i)
+        if (G.vts[i].nsb > 0) have[n++] = i;
+      if (n > 0 && G.rng.below(100) < static_cast<uint64_t>(G.cfg.tso_drain_percent)) {
+        const int v = have[G.rng.below(static_cast<uint64_t>(n))];
+        record_choice(0x80 | v);
+        sb_flush_one(&G.vts[v]);
+      }
+    }
+  }
   G.step++;
   G.now += kQuantumNs;
   if (G.step > G.cfg.max_steps) {
@@ -780,6 +848,7 @@ static void sched_point(VT *me, int kind, uintptr_t addr)
   if (me->state == kRunnable && (kind == OP_LOAD || kind == OP_FENCE) && should_spin_block(me)) {
     me->state = kSpinBlocked;
     G.res.spin_blocks++;
+    if (G.cfg.tso) sb_flush_all(me);
   }
   note_state();
   int next = choose(me);
@@ -912,6 +981,7 @@ static void *trampoline(void *p)
 
 static void vt_finish(VT *me)
 {
+  if (G.cfg.tso) sb_flush_all(me);
   G.step++;
   me->pend_kind = OP_FINISH;
   me->pend_addr = 0;
@@ -1044,10 +1114,14 @@ void op_begin(const char *ctx, int obj)
   me->nrs = 0;
   me->graced = false;
 }
-void op_end()
+static void op_end_impl(bool drain);
+void op_end() { op_end_impl(true); }
+void op_end_keep_buffered() { op_end_impl(false); }
+static void op_end_impl(bool drain)
 {
   VT *me = tl_vt;
   if (!me) return;
+  if (G.cfg.tso && drain) sb_flush_all(me);  // by default buffering is explored inside one API call only (DESIGN 11.8)
   if (me->in_api) {
     me->in_api = false;
     G.api_overlap--;
@@ -1073,7 +1147,7 @@ uint64_t watched_write_seq() { return tl_vt ? tl_vt->w_seq : 0; }
 
 Observer::Observer(uint64_t cap)
 {
-  tl_raw++;
+  tl_raw++;  // (TSO mode: raw loads of the observing vthread forward from its own store buffer, raw writes drain it first)
   if (tl_vt) {
     tl_vt->obs_cap = cap;
     tl_vt->obs_cnt = 0;
@@ -1261,6 +1335,14 @@ T atomic_rmw(int kind, volatile T *a, T v, int mo)
 {
   if (!active()) {
     raw_tick();
+    if (tl_vt != nullptr && G.run_active && G.cfg.tso && tl_vt->nsb > 0) {
+      uint64_t fwd;
+      if (kind == OP_LOAD) {
+        if (sb_lookup(tl_vt, reinterpret_cast<uintptr_t>(a), sizeof(T), &fwd)) return static_cast<T>(fwd);
+      } else {
+        sb_flush_all(tl_vt);
+      }
+    }
     return raw_op<T>(kind, a, v);
   }
   VT *me = tl_vt;
@@ -1268,6 +1350,25 @@ T atomic_rmw(int kind, volatile T *a, T v, int mo)
   check_access(addr, sizeof(T), "atomic access");
   sched_point(me, kind, addr);
   check_access(addr, sizeof(T), "atomic access");
+  if (G.cfg.tso) {
+    if (kind == OP_STORE && mo != 5 && me->in_api) {
+      // x86: a non-seq_cst atomic store is a plain mov; it sits in the store buffer while the thread goes on
+      if (me->nsb == 16) sb_flush_one(me);
+      me->sb[me->nsb++] = VT::SBEnt{addr, static_cast<uint64_t>(v), static_cast<int>(sizeof(T)), mo};
+      G.res.faults[kFStoreBuffered]++;
+      ring_push(me, OP_STORE, addr, sizeof(T), 0, static_cast<uint64_t>(v), mo, false);
+      return v;
+    }
+    if (kind == OP_LOAD) {
+      uint64_t fwd;
+      if (sb_lookup(me, addr, sizeof(T), &fwd)) {  // store-to-load forwarding from the own buffer
+        post_atomic(me, kind, addr, sizeof(T), fwd, fwd, mo, false);
+        return static_cast<T>(fwd);
+      }
+    } else {
+      sb_flush_all(me);  // seq_cst store (xchg) and every read-modify-write (lock prefix) drain the buffer first
+    }
+  }
   const T old = __atomic_load_n(a, __ATOMIC_SEQ_CST);
   if (kind == OP_LOAD) {
     post_atomic(me, kind, addr, sizeof(T), static_cast<uint64_t>(old), static_cast<uint64_t>(old), mo, false);
@@ -1284,6 +1385,7 @@ int atomic_cas(bool weak, volatile T *a, T *expected, T desired, int mo, int fmo
 {
   if (!active()) {
     raw_tick();
+    if (tl_vt != nullptr && G.run_active && G.cfg.tso && tl_vt->nsb > 0) sb_flush_all(tl_vt);
     return __atomic_compare_exchange_n(a, expected, desired, false, __ATOMIC_SEQ_CST, __ATOMIC_SEQ_CST);
   }
   VT *me = tl_vt;
@@ -1292,6 +1394,7 @@ int atomic_cas(bool weak, volatile T *a, T *expected, T desired, int mo, int fmo
   check_access(addr, sizeof(T), "atomic access");
   sched_point(me, kind, addr);
   check_access(addr, sizeof(T), "atomic access");
+  if (G.cfg.tso) sb_flush_all(me);
   const T old = __atomic_load_n(a, __ATOMIC_SEQ_CST);
   if (old == *expected) {
     bool spurious = false;
@@ -1405,6 +1508,7 @@ void __tsan_atomic_thread_fence(int mo)
   }
   VT *me = tl_vt;
   sched_point(me, OP_FENCE, 0);
+  if (G.cfg.tso && mo == 5) sb_flush_all(me);  // mfence; weaker fences are compiler-only on x86
   __atomic_thread_fence(__ATOMIC_SEQ_CST);
   hb_fence(me, mo);
   me->ro_steps++;
